@@ -303,7 +303,22 @@ def check(idx: Index, rep: Report, tier: str) -> str:
             continue
         head = cfg.node_of(loops[0])
         muts = [c for c in calls_in(f.node) if isinstance(c.func, ast.Attribute) and c.func.attr in ("replace_all_uses_with", "replace_uses_with_if", "erase") and _self_call(c) is None]
-        bad = any(cfg.path_avoiding(cfg.node_of(c), cfg.exit, lambda n: n.id == head, follow_exc=False) is not None for c in muts)
+        from ..astutil import conjuncts as _cj11
+
+        it_txt = unparse(loops[0].iter)
+
+        def _not_known_empty(a_: int, b_: int, lab) -> bool:
+            """an edge on which the collection of modified users is known to be empty is not a way of skipping them"""
+            e_ = cfg.nodes[a_].ast
+            if e_ is None or lab not in ("T", "F") or not isinstance(e_, ast.expr):
+                return True
+            for atom, truth in _cj11(e_, lab == "T"):
+                t_ = unparse(atom)
+                if (t_ == it_txt and not truth) or (t_ in (f"len({it_txt}) == 0", f"not {it_txt}") and truth) or (t_ in (f"len({it_txt}) > 0", f"len({it_txt}) != 0") and not truth):
+                    return False
+            return True
+
+        bad = any(cfg.path_avoiding(cfg.node_of(c), cfg.exit, lambda n: n.id == head, follow_exc=False, edge_ok=_not_known_empty) is not None for c in muts)
         if bad:
             r2.fail(inst, Finding("C11.R2", f.fq, "modification-skipped", "a path re-routes uses and returns without notifying the modified users", f.loc))
         else:
